@@ -609,6 +609,11 @@ let () =
        | "PLAN" :: rest -> upd (fun c -> handle_plan c rest)
        | "END" :: _ -> cur := None; Hashtbl.reset runs
        | "FRAG" :: _ -> handle_frag line
+       | "HBAD" :: pid :: _ ->
+         (* a violation detected by the harness itself (two API paths of the implementation disagree) *)
+         if pid = "C17" then (incr c17_bad; incr c17_checked);
+         print_endline ("BAD" ^ String.sub line 4 (String.length line - 4))
+       | "APLAN" :: _ -> incr c17_checked
        | "PANIC" :: _ -> incr stats_panic; print_endline line
        | _ -> ()
      done
